@@ -189,7 +189,7 @@ def pstmt(s, ind=0):
     if t == "continue":
         return f"{p}continue\n"
     if t == "return":
-        return f"{p}return {pe(s[1])}\n" if s[1] is not None else f"{p}return \n"
+        return f"{p}return {pe(s[1])}\n" if s[1] is not None else f"{p}return\n"
     if t == "assert":
         return f"{p}assert {pe(s[1])}\n"
     if t == "expr":
